@@ -297,6 +297,8 @@ def finish(pid, tier, seed, t0, *, level, obligations, streams, build_errors, ex
         lines.append(f"VIOLATION property={pid} replay={rp} no-failing-input-found")
         rc, violations = 1, 1
 
+    if rc == 0:
+        for f in (VERIF / "replays" / pid).glob("*.txt"): f.unlink()
     cov = {
         "obligations": len(thms), "discharged": discharged,
         "checker_cmd": checker_cmd or f"lake build {' '.join(obligations['modules'])} && lake env lean work/{pid}/Audit.lean  (#print axioms on every property theorem)",
